@@ -138,6 +138,11 @@ func (k msgServer) MsgLiquidateBorrow(c context.Context, msg *types.MsgLiquidate
 	}
 
 	liqThreshold, _ := k.lend.GetAssetRatesParams(ctx, lendPair.AssetIn)
+	// an e-mode pair is liquidated at its e-mode threshold (as in the block sweep)
+	liquidationThreshold := liqThreshold.LiquidationThreshold
+	if lendPair.IsEModeEnabled {
+		liquidationThreshold = liqThreshold.ELiquidationThreshold
+	}
 	liqThresholdBridgedAssetOne, _ := k.lend.GetAssetRatesParams(ctx, firstTransitAssetID)
 	liqThresholdBridgedAssetTwo, _ := k.lend.GetAssetRatesParams(ctx, secondTransitAssetID)
 	firstBridgedAsset, _ := k.asset.GetAsset(ctx, firstTransitAssetID)
@@ -150,7 +155,7 @@ func (k msgServer) MsgLiquidateBorrow(c context.Context, msg *types.MsgLiquidate
 		if err != nil {
 			return nil, err
 		}
-		if sdk.Dec.GT(currentCollateralizationRatio, liqThreshold.LiquidationThreshold) {
+		if sdk.Dec.GT(currentCollateralizationRatio, liquidationThreshold) {
 			// after checking the currentCollateralizationRatio with LiquidationThreshold if borrow is to be liquidated then
 			// CreateLockedBorrow function is called
 			lockedVault, err := k.CreateLockedBorrow(ctx, borrowPos, currentCollateralizationRatio, lendPos.AppID)
@@ -167,7 +172,7 @@ func (k msgServer) MsgLiquidateBorrow(c context.Context, msg *types.MsgLiquidate
 	} else {
 		if borrowPos.BridgedAssetAmount.Denom == firstBridgedAsset.Denom {
 			currentCollateralizationRatio, _ = k.lend.CalculateCollateralizationRatio(ctx, borrowPos.AmountIn.Amount, assetIn, borrowPos.AmountOut.Amount.Add(borrowPos.InterestAccumulated.TruncateInt()), assetOut)
-			if sdk.Dec.GT(currentCollateralizationRatio, liqThreshold.LiquidationThreshold.Mul(liqThresholdBridgedAssetOne.LiquidationThreshold)) {
+			if sdk.Dec.GT(currentCollateralizationRatio, liquidationThreshold.Mul(liqThresholdBridgedAssetOne.LiquidationThreshold)) {
 				lockedVault, err := k.CreateLockedBorrow(ctx, borrowPos, currentCollateralizationRatio, lendPos.AppID)
 				if err != nil {
 					return nil, err
@@ -182,7 +187,7 @@ func (k msgServer) MsgLiquidateBorrow(c context.Context, msg *types.MsgLiquidate
 		} else {
 			currentCollateralizationRatio, _ = k.lend.CalculateCollateralizationRatio(ctx, borrowPos.AmountIn.Amount, assetIn, borrowPos.AmountOut.Amount.Add(borrowPos.InterestAccumulated.TruncateInt()), assetOut)
 
-			if sdk.Dec.GT(currentCollateralizationRatio, liqThreshold.LiquidationThreshold.Mul(liqThresholdBridgedAssetTwo.LiquidationThreshold)) {
+			if sdk.Dec.GT(currentCollateralizationRatio, liquidationThreshold.Mul(liqThresholdBridgedAssetTwo.LiquidationThreshold)) {
 				lockedVault, err := k.CreateLockedBorrow(ctx, borrowPos, currentCollateralizationRatio, lendPos.AppID)
 				if err != nil {
 					return nil, err
